@@ -270,6 +270,9 @@ func specLE32(b []byte, o int) uint32 {
 //@   safety C03
 
 //@ func packet.unmarshal
+//@   at call chunkType.String assert#every-emitted-chunk-type-is-decodable{C12,C19} ctype != ctPayloadData && ctype != ctInit && ctype != ctInitAck && ctype != ctSack &&
+//@      ctype != ctHeartbeat && ctype != ctHeartbeatAck && ctype != ctAbort && ctype != ctShutdown && ctype != ctShutdownAck && ctype != ctError &&
+//@      ctype != ctCookieEcho && ctype != ctCookieAck && ctype != ctShutdownComplete && ctype != ctReconfig && ctype != ctForwardTSN && ctype != ctIData && ctype != ctIForwardTSN
 //@   ensures#verify result == nil ==> len(raw) >= 12 && (old(specLE32(raw, 8) == generatePacketChecksum(raw)) ||
 //@      (old(specLE32(raw, 8)) == 0 && !doChecksum && !(len(raw) >= 16 && (old(raw[12]) == 1 || old(raw[12]) == 10))))
 //@   tags C13
